@@ -1,6 +1,6 @@
 """C50 - SPIDeviceInterface exchanges whole words for every word size.
 
-DUT: luna.gateware.interface.spi.SPIDeviceInterface(word_size 2..33, clock_polarity, clock_phase,
+DUT: luna.gateware.interface.spi.SPIDeviceInterface(word_size 1..33 and 34..72, clock_polarity, clock_phase,
      msb_first, cs_idles_high) - all 16 mode combinations, power-of-two and other sizes.
 
 Workload: an SPI host model written for this check.  Per case 3..14 transactions of 1..5 words (some
@@ -20,15 +20,17 @@ msb_first else LSB; the count restarts at every CS assertion.  The monitor rebui
   * exactly one `word_complete` cycle for each complete word, within WINDOW cycles after its last
     sample edge, carrying `word_in` == the reference word; no strobe without a complete word
     (partial words, foreign traffic, CS edges);
-  * CPHA 1 (data changes on the leading edge) and msb_first: at every sample edge SDO equals the
-    next bit, MSB first, of the word presented on `word_out` - for word 0 the value presented when
+  * CPHA 1 (data changes on the leading edge): at every sample edge SDO equals the next bit, in the
+    configured order (MSB first unless msb_first=False), of the word presented on `word_out` - for word 0 the value presented when
     CS was asserted, for word j>0 the value presented at the end of word j-1.
 After the first violation inside a transaction the rest of that transaction is not judged (it is a
 cascade); judging resumes with the next transaction after a quiet deselected period.
 
-Not judged: SDO in CPHA 0 modes (the statement restricts the clause to leading-edge-output modes) and
-in LSB-first configurations (the statement says MSB first; the device is configurable) - counted as
-unjudged; `word_accepted`; exact latency of `word_complete` (only the window).
+SDO is judged in both bit orders: MSB first for msb_first=True (the statement), LSB first for msb_first=False
+(the block's documented parameter: "data will be transmitted MSB first" only if set).
+Not judged: SDO in CPHA 0 modes - the statement restricts the clause to modes where data changes on the
+leading edge; in CPHA 0 the block shifts on the trailing edge and does not present the first bit before the
+first sample edge, so any expectation would encode luna's current behaviour, not the statement (unjudged); `word_accepted`; exact latency of `word_complete` (only the window).
 
 History: on the original tree the bit counter was cleared only by CS, so for sizes that are not a power
 of two the second word of a transaction was not reported at its boundary (findings/C50.md, mechanism
@@ -47,10 +49,10 @@ from rv.sim import Bench
 
 PROPERTY = "C50"
 CASES = {"quick": 320, "thorough": 6400}
-RULE = ("case = (word_size 2..33, CPOL, CPHA, bit order, CS polarity, 3..14 transactions each 1..5 words (+ optional "
+RULE = ("case = (word_size 1..33 or 34..72, CPOL, CPHA, bit order, CS polarity, 3..14 transactions each 1..5 words (+ optional "
         "partial word), half period 1..8 with jitter, CS/clock delays, foreign clocks while deselected, word_out changes); "
         "non-trivial = at least one multi-word transaction was judged; distinct = hash of config + full pin script")
-REQUIRED_BINS = ["size_pow2", "size_non_pow2", "size_ge_17", "size_le_3", "mode0", "mode1", "mode2", "mode3",
+REQUIRED_BINS = ["size_pow2", "size_non_pow2", "size_ge_17", "size_le_3", "size_1", "size_gt_33", "size_gt_64", "cs_pulse_without_clock", "sdo_judged_lsb_first", "sdo_judged_msb_first", "mode0", "mode1", "mode2", "mode3",
                  "msb_first", "lsb_first", "cs_active_high", "cs_active_low", "multiword_pow2", "multiword_non_pow2",
                  "third_word_reported_pow2", "abort_partial_word", "transaction_after_abort", "foreign_clock_while_deselected",
                  "word_out_changed_inside_transaction", "sdo_word_ge1_judged", "half_period_1", "half_period_2", "word_boundary_next_edge_after_1", "word_boundary_next_edge_after_2",
@@ -61,7 +63,7 @@ REQUIRED_EVENTS = ["transactions", "sample_edges", "words_expected", "words_repo
 ASSUMPTIONS = ["SCK half period >= 1 sync cycle (SCK <= sync/2), SDI valid in the cycle of the sample edge and >= 1 cycle before it",
                "CS changes only while SCK is at its idle level, >= 1 cycle away from any SCK edge; CS inactive >= 1 cycle",
                "word_out is stable from 2 cycles before to 3 cycles after the point where the device may latch it",
-               "SDO judged only for clock_phase=1 and msb_first=True; word_complete latency only bounded (8 cycles)"]
+               "SDO judged only for clock_phase=1 (both bit orders); word_complete latency only bounded (8 cycles)"]
 
 WINDOW = 8
 
@@ -73,7 +75,9 @@ def _pow2(n):
 def run_case(rng, tier, res):
     from luna.gateware.interface.spi import SPIDeviceInterface
 
-    ws = rng.choice([2, 3, 4, 5, 7, 8, 9, 12, 16, 16, 17, 24, 32, 32, 33, rng.randint(2, 33), rng.randint(2, 33), rng.randint(2, 33)])
+    ws = rng.choice([1, 1, 2, 3, 4, 5, 7, 8, 9, 12, 16, 16, 17, 24, 32, 32, 33, rng.randint(2, 33), rng.randint(2, 33), rng.randint(2, 33)])
+    if rng.random() < 0.15:
+        ws = rng.choice([34, 40, 63, 64, 65, 65, 72, 96])      # beyond 32/64-bit: counter widths, python-int-free shifting
     cpol, cpha = rng.randint(0, 1), rng.randint(0, 1)
     msb = rng.random() < 0.6
     cs_high_idle = rng.random() < 0.4
@@ -86,6 +90,12 @@ def run_case(rng, tier, res):
         res.bin("size_ge_17")
     if ws <= 3:
         res.bin("size_le_3")
+    if ws == 1:
+        res.bin("size_1")
+    if ws > 33:
+        res.bin("size_gt_33")
+    if ws > 64:
+        res.bin("size_gt_64")
     res.bin("mode%d" % (2 * cpol + cpha))
     res.bin("msb_first" if msb else "lsb_first")
     res.bin("cs_active_low" if cs_high_idle else "cs_active_high")
@@ -125,9 +135,11 @@ def run_case(rng, tier, res):
     while (used < budget and len(script) < 14) or len(script) < 3:
         r = rng.random()
         nwords = 1 if r < 0.3 else 2 if r < 0.55 else 3 if r < 0.75 else rng.randint(4, 5)
-        partial = rng.randint(1, ws - 1) if rng.random() < 0.22 else 0
+        partial = rng.randint(1, ws - 1) if (ws >= 2 and rng.random() < 0.22) else 0
         if partial and rng.random() < 0.3:
             nwords = 0 if rng.random() < 0.5 else nwords
+        if not partial and rng.random() < 0.06:
+            nwords = 0          # CS pulse without a single clock
         t = {"words": [word_value() for _ in range(nwords)], "partial": partial,
              "cs2clk": rng.choice([1, 1, 2, 3, rng.randint(1, 6)]), "clk2cs": rng.choice([1, 1, 2, 3, rng.randint(1, 6)]),
              "gap": rng.choice([1, 1, 2, 3, 4, rng.randint(1, 10)]),
@@ -209,6 +221,8 @@ def run_case(rng, tier, res):
             if st["aborted_prev"]:
                 res.bin("transaction_after_abort")
         if not sel and st["sel"]:
+            if not st["bits"] and st["widx"] == 0:
+                res.bin("cs_pulse_without_clock")
             st["aborted_prev"] = bool(st["bits"])
             if st["bits"]:
                 res.bin("abort_partial_word")
@@ -220,7 +234,7 @@ def run_case(rng, tier, res):
             st["boundary"] = None
             if d <= 2:
                 res.bin("word_boundary_next_edge_after_%d" % d)
-                if cpha == 1 and msb and st["tx"]["ok"]:
+                if cpha == 1 and st["tx"]["ok"]:
                     res.bin("sdo_judged_word_boundary_next_edge_after_%d" % d)
         if not sel:
             st["boundary"] = None
@@ -234,10 +248,12 @@ def run_case(rng, tier, res):
                 res.event("sample_edges")
                 k = len(st["bits"])
                 # --- SDO
-                if cpha == 1 and msb:
+                if cpha == 1:
                     if st["tx"]["ok"]:
-                        exp = (st["tx"]["value"] >> (ws - 1 - k)) & 1
+                        # transmit order = the configured bit order (MSB first unless msb_first=False)
+                        exp = (st["tx"]["value"] >> ((ws - 1 - k) if msb else k)) & 1
                         res.event("sdo_bits_checked")
+                        res.bin("sdo_judged_msb_first" if msb else "sdo_judged_lsb_first")
                         if st["widx"] >= 1:
                             res.bin("sdo_word_ge1_judged")
                         if sdo != exp:
